@@ -352,6 +352,10 @@ func onceRules(c *Ctx) {
 // closedGuards: C12.4 (beyond the atomic sections of E1).
 func closedGuards(c *Ctx) {
 	P := c.P
+	// Done() hands out the channel that Close closes
+	c.returnsField("(*Buffer).Done", "Buffer.done", "the channel observers wait on must be the one Close closes")
+	c.returnsField("(*consumer).Done", "consumer.done", "the channel observers wait on must be the one Close closes")
+	c.returnsField("(*Channel).Done", "Channel.done", "the channel observers wait on must be the one Close closes")
 	if q := c.F("(*consumer).Get"); q.ok() {
 		errs := an.AllInstrs(q.fn, func(in ssa.Instruction) bool {
 			call, ok := in.(*ssa.Call)
